@@ -2,14 +2,14 @@
 //
 // The harness generates value trees in its OWN neutral representation (Node), builds the phosg
 // JSON from it, and for each of the 64 SerializeOption combinations:
-//   t = v.serialize(o)
-//   p = JSON::parse(t)                 (default mode; strict mode too when o is a subset of FORMAT|SORT_DICT_KEYS)
+//   t = ser(v, o)
+//   p = prs(t)                 (default mode; strict mode too when o is a subset of FORMAT|SORT_DICT_KEYS)
 //   * parse must not throw
 //   * p walked through the public accessors must have the same shape, int/float kinds, exact ints,
 //     exact byte strings/keys, floats equal at six significant digits      (independent of operator==)
 //   * float-free trees: p == v with phosg's own operator== ; trees with floats: p == parse(text with
 //     sorted keys) (same doubles, different key order)
-//   * p.serialize(o|SORT) == v.serialize(o|SORT)
+//   * ser(p, o|SORT) == ser(v, o|SORT)
 // Every tree is also dumped in a tagged neutral form together with the text of the four standard
 // option sets to c04.dump.<shard>.tsv; vf/oracles/c04.py compares them with CPython json.loads.
 // Deep-copy monitor: copies are compared, address-walked for aliasing, mutated at a random path.
@@ -32,6 +32,17 @@ using namespace phosg;
 using vf::fmt;
 
 static vf::Ctx* C;
+
+// Every call into phosg is preceded by vf::poison_errno(): code that tests a stale errno shows up as a wrong result.
+#define PE() vf::poison_errno()
+static string ser(const JSON& j, uint32_t o) {
+  PE();
+  return j.serialize(o);
+}
+static JSON prs(const string& t, bool strict) {
+  PE();
+  return JSON::parse(t, strict);
+}
 
 // ------------------------------------------------------------------------------------------------
 // neutral tree
@@ -59,6 +70,7 @@ static void dput(Node& d, const string& k, Node v) {
 }
 
 static JSON build(const Node& n) {
+  PE();
   switch (n.k) {
     case Node::N: return JSON(nullptr);
     case Node::B: return JSON(n.b);
@@ -196,6 +208,7 @@ static string sig6(double f) {
 
 // returns "" or "<check>" ; fills where with a human-readable path
 static string walk_cmp(const Node& n, const JSON& j, string& where, const string& path) {
+  PE();
   auto bad = [&](const char* chk, const string& detail) {
     where = path + ": " + detail;
     return string(chk);
@@ -255,11 +268,11 @@ struct Outcome {
 // the full per-(value, options, mode) pipeline.  `fl` = tree contains floats.
 static Outcome run_one(const Node& n, const JSON& v, uint32_t o, bool strict, bool fl, const string* text_in = nullptr) {
   Outcome out;
-  string t = text_in ? *text_in : v.serialize(o);
-  string ts = (o & JSON::SORT_DICT_KEYS) ? t : v.serialize(o | JSON::SORT_DICT_KEYS);
+  string t = text_in ? *text_in : ser(v, o);
+  string ts = (o & JSON::SORT_DICT_KEYS) ? t : ser(v, o | JSON::SORT_DICT_KEYS);
   JSON p;
   try {
-    p = JSON::parse(t, strict);
+    p = prs(t, strict);
   } catch (const exception& e) {
     out.check = "parse-throws";
     out.detail = string(typeid(e).name()) + ": " + e.what();
@@ -272,6 +285,7 @@ static Outcome run_one(const Node& n, const JSON& v, uint32_t o, bool strict, bo
     out.detail = where;
     return out;
   }
+  PE();
   if (!fl) {
     if (!(p == v) || !(v == p) || (p != v)) {
       out.check = "operator==-false";
@@ -281,19 +295,20 @@ static Outcome run_one(const Node& n, const JSON& v, uint32_t o, bool strict, bo
   } else {
     JSON p2;
     try {
-      p2 = JSON::parse(ts, strict && is_std(o));
+      p2 = prs(ts, strict && is_std(o));
     } catch (const exception& e) {
       out.check = "parse-throws";
       out.detail = string("(sorted text) ") + typeid(e).name() + ": " + e.what();
       return out;
     }
+    PE();
     if (!(p == p2) || (p != p2)) {
       out.check = "operator==-false";
       out.detail = "parse(text) == parse(text with sorted keys) is false";
       return out;
     }
   }
-  string rs = p.serialize(o | JSON::SORT_DICT_KEYS);
+  string rs = ser(p, o | JSON::SORT_DICT_KEYS);
   if (rs != ts) {
     out.check = "reserialize-differs";
     size_t k = 0;
@@ -343,6 +358,7 @@ static string opt_names(uint32_t o) {
 // deep-copy monitor
 
 static bool aliases(const JSON& a, const JSON& b) {
+  PE();
   if (&a == &b) return true;
   if (a.is_list() && b.is_list()) {
     size_t n = min(a.size(), b.size());
@@ -361,6 +377,7 @@ static bool aliases(const JSON& a, const JSON& b) {
 
 // mutate j somewhere (random path); returns a description; the new value is certainly different
 static string mutate(JSON& j, vf::Rng& r, int depth = 0) {
+  PE();
   if (j.is_list() && !j.empty() && r.chance(3, 4)) {
     size_t i = r.below(j.size());
     return fmt("[%zu]", i) + mutate(j.at(i), r, depth + 1);
@@ -403,13 +420,17 @@ static string mutate(JSON& j, vf::Rng& r, int depth = 0) {
 
 static void copy_monitor(const Node& n, const JSON& v, vf::Rng& r, const string& desc) {
   C->evaluations++;
-  string before = v.serialize(JSON::SORT_DICT_KEYS);
+  string before = ser(v, JSON::SORT_DICT_KEYS);
+  PE();
   JSON pristine(v);   // copy constructor
   JSON assigned;
+  PE();
   assigned = v;       // copy assignment
+  PE();
   JSON victim(v);
   string where;
   string kind = n.k == Node::L ? "list" : n.k == Node::D ? "dict" : "leaf";
+  PE();
   if (!(pristine == v) || !(assigned == v) || (pristine != v))
     C->violation("copy:not-equal-to-source:" + kind, "JSON(v) == v is false", desc);
   string w1 = walk_cmp(n, pristine, where, "$");
@@ -420,15 +441,20 @@ static void copy_monitor(const Node& n, const JSON& v, vf::Rng& r, const string&
     if (aliases(v, pristine) || aliases(v, assigned) || aliases(pristine, assigned))
       C->violation("copy:aliases-source:" + kind, "a copy shares a child object with its source", desc);
   }
+  PE();
   string m = mutate(victim, r);
+  PE();
   if (victim == v || !(victim != v) || v == victim)
     C->violation("copy:mutated-copy-still-equal" + m.substr(m.rfind(':')), "after mutating the copy at " + m + " it still compares equal to the source", desc);
+  PE();
   if (!(pristine == v)) C->violation("copy:source-changed:" + kind, "mutating a copy changed the source (compared with a second pristine copy)", desc + " mutated at " + m);
-  if (v.serialize(JSON::SORT_DICT_KEYS) != before) C->violation("copy:source-changed:" + kind, "mutating a copy changed the source's serialisation", desc + " mutated at " + m);
+  if (ser(v, JSON::SORT_DICT_KEYS) != before) C->violation("copy:source-changed:" + kind, "mutating a copy changed the source's serialisation", desc + " mutated at " + m);
   string w3 = walk_cmp(n, v, where, "$");
   if (!w3.empty()) C->violation("copy:source-changed:" + kind, "source no longer holds the generated value: " + where, desc + " mutated at " + m);
   // self-consistency of the move path used everywhere above
+  PE();
   JSON moved(std::move(assigned));
+  PE();
   if (!(moved == v)) C->violation("copy:moved-differs:" + kind, "moved-from copy differs", desc);
   C->cls("copy:mutate" + m.substr(m.rfind(':')));
   C->cls("copy:" + kind);
@@ -547,7 +573,7 @@ static void check_assigned(const char* op, const string& kind, const Node& n, co
   string where;
   string w = walk_cmp(n, dst, where, "$");
   if (!w.empty()) C->violation(pre + "differs", string("after ") + op + " the destination does not hold the source's value (" + w + "): " + where, desc);
-  string sd = dst.serialize(JSON::SORT_DICT_KEYS);
+  string sd = ser(dst, JSON::SORT_DICT_KEYS);
   if (sd != sorted_v) {
     size_t k = 0;
     while (k < sd.size() && k < sorted_v.size() && sd[k] == sorted_v[k]) k++;
@@ -555,18 +581,21 @@ static void check_assigned(const char* op, const string& kind, const Node& n, co
   }
   if ((dst.is_list() || dst.is_dict()) && (v.is_list() || v.is_dict()) && dst.size() != v.size())
     C->violation(pre + "differs", fmt("size() %zu after assignment, source has %zu", dst.size(), v.size()), desc);
+  PE();
   if (!(dst == v) || !(v == dst) || (dst != v) || (v != dst)) C->violation(pre + "not-equal", "dst == src is false (or != true) after the assignment", desc);
   if (aliases(v, dst)) C->violation(pre + "aliases-source", "the destination shares a child object or string buffer with the source", desc);
   if (mutate_too) {
+    PE();
     string m = mutate(dst, r);
+    PE();
     if (dst == v || v == dst) C->violation(pre + "mutated-still-equal", "after mutating the destination at " + m + " it still compares equal to the source", desc);
-    if (v.serialize(JSON::SORT_DICT_KEYS) != sorted_v || !walk_cmp(n, v, where, "$").empty())
+    if (ser(v, JSON::SORT_DICT_KEYS) != sorted_v || !walk_cmp(n, v, where, "$").empty())
       C->violation(pre + "source-changed", "mutating the assigned destination at " + m + " changed the source", desc);
   }
 }
 
 static void assign_monitor(const Node& n, const JSON& v, vf::Rng& r, const string& desc) {
-  string sorted_v = v.serialize(JSON::SORT_DICT_KEYS);
+  string sorted_v = ser(v, JSON::SORT_DICT_KEYS);
   const char* sk = n.k == Node::L ? "list" : n.k == Node::D ? "dict" : "scalar";
   vector<Dest> dests = destinations(n);
   for (auto& d : dests) {
@@ -577,13 +606,16 @@ static void assign_monitor(const Node& n, const JSON& v, vf::Rng& r, const strin
     C->crumb_s("copy-assign onto " + d.kind + " " + dd.substr(0, 3000));
     {
       JSON dst = build(d.node);
+      PE();
       dst = v;
       check_assigned("copy-assign", d.kind, n, v, dst, sorted_v, r, dd, true);
     }
     C->crumb_s("move-assign onto " + d.kind + " " + dd.substr(0, 3000));
     {
+      PE();
       JSON tmp(v);
       JSON dst = build(d.node);
+      PE();
       dst = std::move(tmp);
       check_assigned("move-assign", d.kind, n, v, dst, sorted_v, r, dd, false);
     }
@@ -595,17 +627,22 @@ static void assign_monitor(const Node& n, const JSON& v, vf::Rng& r, const strin
     string dd = "destination is a copy of the previously processed tree; source " + desc;
     C->crumb_s("copy-assign onto previous tree " + dd.substr(0, 3000));
     {
+      PE();
       JSON dst(g_prev);
+      PE();
       dst = v;
       check_assigned("copy-assign", "previous-tree", n, v, dst, sorted_v, r, dd, true);
     }
     {
+      PE();
       JSON tmp(v);
+      PE();
       g_prev = std::move(tmp);  // move-assign onto the previous tree itself
       check_assigned("move-assign", "previous-tree", n, v, g_prev, sorted_v, r, dd, false);
     }
     C->cls(string("assign:onto-previous-tree:") + sk);
   } else {
+    PE();
     g_prev = v;
     g_have_prev = true;
   }
@@ -836,7 +873,7 @@ static void process(uint64_t idx, const Node& n, vf::Rng& r, const char* origin)
   if (dumpf) fprintf(dumpf, "T\t%" PRIu64 "\t%s\n", idx, tg.c_str());
   for (uint32_t o = 0; o < 64; o++) {
     C->crumb_s(fmt("serialize opts=0x%02x ", o) + desc);
-    string t = v.serialize(o);
+    string t = ser(v, o);
     bool std_o = is_std(o);
     if (std_o && dumpf) fprintf(dumpf, "X\t%" PRIu64 "\t%u\t%s\n", idx, o, vf::hex(t).c_str());
     for (int strict = 0; strict <= (std_o ? 1 : 0); strict++) {
@@ -849,7 +886,7 @@ static void process(uint64_t idx, const Node& n, vf::Rng& r, const char* origin)
         const Node* b = blame(n, o, strict, ks);
         string bt;
         tagged(*b, bt);
-        string btext = build(*b).serialize(o);
+        string btext = ser(build(*b), o);
         C->violation(oc.check + ":" + ks + ":" + (strict ? "strict" : "default"),
             oc.check + " (" + oc.detail + ") with options " + opt_names(o) + (strict ? ", strict parser" : ", default parser"),
             "smallest failing value " + (bt.size() > 300 ? bt.substr(0, 300) + "..." : bt) + " serialises to hex " + vf::hex(btext.substr(0, 200)) + " = \"" + btext.substr(0, 200) + "\"; in " + desc.substr(0, 600));
